@@ -724,7 +724,80 @@ pub fn gen_nest_opt(rng: &mut Rng, cap: usize, full_depth: bool) -> Case {
 // Byzantine re-encoding and substitution
 // ------------------------------------------------------------------------------------------
 
+/// The tagged data items of RFC 8949 section 3.4 (what a generic CBOR producer may put where a
+/// number, a time or a string is expected), with components at the extremes.
+fn std_tagged(rng: &mut Rng) -> Item {
+    let big = |rng: &mut Rng| match rng.below(8) {
+        0 => Item::uint(0),
+        1 => Item::uint(1),
+        2 => Item::uint(u64::MAX),
+        3 => Item::uint(i64::MAX as u64),
+        4 => Item::int(-(1i128 << 64)),
+        5 => Item::int(-1),
+        6 => Item::tag(2, Item::bytes(&[0xff; 12])),
+        _ => Item::uint(*rng.pick(&[10u64, 308, 309, 1000, 1 << 20, 1 << 32])),
+    };
+    match rng.below(14) {
+        0 => Item::tag(0, Item::text("2026-10-01T00:00:00Z")),
+        1 => Item::tag(1, big(rng)),
+        2 => Item::tag(
+            1,
+            Item::new(Kind::Float(8, crate::palette::float_bits(rng))),
+        ),
+        3 | 4 | 5 => {
+            // decimal fraction [exponent, mantissa]
+            let e = big(rng);
+            let m = big(rng);
+            Item::tag(4, Item::array(vec![e, m]))
+        }
+        6 | 7 => {
+            // bigfloat
+            let e = big(rng);
+            let m = big(rng);
+            Item::tag(5, Item::array(vec![e, m]))
+        }
+        8 => Item::tag(*rng.pick(&[21u64, 22, 23]), Item::bytes(&[1, 2, 3])),
+        9 => Item::tag(24, Item::bytes(&[0x83, 0x40, 0xa0, 0x40])),
+        10 => Item::tag(32, Item::text("https://example.com/x")),
+        11 => Item::tag(*rng.pick(&[33u64, 34, 35, 36]), Item::text("QUJD")),
+        12 => Item::tag(37, Item::bytes(&[0x11; 16])),
+        _ => Item::tag(55799, big(rng)),
+    }
+}
+
+/// A number the way a generic CBOR producer may also write one: decimal fraction or bigfloat
+/// (tag 4 / 5 over [exponent, mantissa]) or an epoch time (tag 1), with the exponent anywhere in
+/// the 64-bit range and the mantissa often zero or one.
+fn std_number(rng: &mut Rng) -> Item {
+    let e = match rng.below(6) {
+        0 => Item::int(-2),
+        1 => Item::uint(*rng.pick(&[3u64, 19, 308, 400, 1 << 20])),
+        2 => Item::uint(*rng.pick(&[1u64 << 31, 1 << 32, 1 << 40])),
+        3 => Item::uint(i64::MAX as u64),
+        4 => Item::uint(u64::MAX),
+        _ => Item::int(*rng.pick(&[-(1i128 << 63), -(1i128 << 64), -400, -(1i128 << 32)])),
+    };
+    let m = match rng.below(4) {
+        0 => Item::uint(0),
+        1 => Item::uint(1),
+        2 => Item::int(-1),
+        _ => Item::uint(*rng.pick(&[17u64, 1_700_000_000, u64::MAX])),
+    };
+    match rng.below(5) {
+        0 => Item::tag(1, m),
+        1 | 2 => Item::tag(4, Item::array(vec![e, m])),
+        3 => Item::tag(5, Item::array(vec![e, m])),
+        _ => Item::tag(4, Item::array(vec![m, e])),
+    }
+}
+
 fn subst_palette(rng: &mut Rng) -> Item {
+    if rng.chance(1, 12) {
+        return std_number(rng);
+    }
+    if rng.chance(1, 6) {
+        return std_tagged(rng);
+    }
     let n = rng.below(34);
     match n {
         0..=5 => Item::array((0..n).map(|i| Item::uint(i as u64)).collect()),
@@ -790,6 +863,9 @@ fn byzantine_tree(rng: &mut Rng, it: &mut Item, depth: usize) {
             }
         }
         Kind::Tag(_, b) => byzantine_tree(rng, b, depth + 1),
+        Kind::UInt(_) | Kind::NInt(_) | Kind::Float(_, _) if rng.chance(1, 16) => {
+            *it = std_number(rng);
+        }
         Kind::UInt(v) if rng.chance(1, 12) => {
             let bytes = v.to_be_bytes();
             let skip = bytes.iter().take_while(|b| **b == 0).count();
